@@ -62,7 +62,7 @@ def main() -> int:
         ck.model_check("MC_Lexers", "MC_Lexers.cfg", "lexer machines (all special units, bounded depth): totality, mode discipline, error absorbing, skeleton lemmas", workers=8, jvm=JVM, timeout=900)
         if not ck.quick:
             ck.model_check("MC_Lexers", "MC_Lexers_deep.cfg", "lexer machines (literal and escape units, unbounded depth)", workers=8, jvm=JVM, timeout=900)
-        ck.model_check("MC_LexCanon", "MC_LexCanon%s.cfg" % suffix, "Decode(kind, Canon(kind, s)) = Expected(kind, s)", workers=8, jvm=JVM, timeout=600)
+        ck.model_check("MC_LexCanon", "MC_LexCanon.cfg", "Decode(kind, Canon(kind, s)) = Expected(kind, s)", workers=8, jvm=JVM, timeout=600)
     # G
     cases_p = ck.work / "cases.json"
     if replay:
@@ -133,8 +133,8 @@ def main() -> int:
     ck.cov["validated_against_real_toolchain"] = s_checked
     ck.cov["real_toolchain_texts"] = s_counts
     ck.cov["rule"] = (
-        "G (TLC): all strings of length <= MaxLen over the 26-unit class alphabet + all of length SmallLen over the 14 escape-relevant units "
-        "+ NSample random strings (%d strings); each emitter is called on every string of its documented domain; "
+        "G (TLC): all strings of length <= 2 over the 26-unit class alphabet + all of length 3 over the 10 (thorough 14) escape-relevant units "
+        "+ (thorough) 6000 / 3000 random strings of length 3 / 4 (%d strings); each emitter is called on every string of its documented domain; "
         "non-trivial = emitted literal whose original has at least one unit that is not plain printable ASCII" % n_cases
     )
     ck.cov["exhaustive"] = True
